@@ -802,7 +802,15 @@ impl Check for C20 {
                     }
                 }
             }
-            r.sample(json!({"fault": FAULTS[idx].0, "layouts": LAYOUTS.len()}));
+            {
+                let chain = [Link::ObjMethod, Link::Ctor];
+                let prog = build(&chain, idx, &[0, 0], true);
+                let mut rng = Rng::derive("c20.sample", idx as u64, 0);
+                let (rendered, rep) = run_program(&prog, "comments", &mut rng, true);
+                r.sample(json!({"fault": FAULTS[idx].0, "layout": "comments", "source": truncate(&rendered[0].text, 900),
+                    "marks": rendered[0].marks.iter().map(|(k, v)| format!("frame {}: {}:{}..{}:{}", k, v.0.line, v.0.col, v.1.line, v.1.col)).collect::<Vec<_>>(),
+                    "reported": rep.frames.iter().map(|f| format!("{:?} {:?} {}:{}", f.name, f.file, f.line, f.column)).collect::<Vec<_>>()}));
+            }
         } else if idx < nf + nl {
             // call-chain shapes under one layout: every trampolined link kind at every position of
             // depth-2 chains, depths 0..12, 1-3 modules, and every native-mediated link
